@@ -29,6 +29,30 @@ pub fn run_job(ctx: &mut WorkerCtx, job: &Value) -> JobOutput {
                 tainted: false,
             }
         }
+        "probe_mono" => {
+            // the monotonic clock seam: an opted-in thread sees every read `step` later than the
+            // previous one; a thread that did not opt in keeps the real clock
+            let step = job["step_ns"].as_i64().unwrap_or(0);
+            let opted = std::thread::spawn(move || {
+                set_mono_step(step);
+                let a = std::time::Instant::now();
+                let b = std::time::Instant::now();
+                b.duration_since(a).as_nanos() as u64
+            })
+            .join()
+            .unwrap_or(0);
+            let plain = std::thread::spawn(|| {
+                let a = std::time::Instant::now();
+                let b = std::time::Instant::now();
+                b.duration_since(a).as_nanos() as u64
+            })
+            .join()
+            .unwrap_or(u64::MAX);
+            JobOutput {
+                result: json!({"class":"probe","opted_in_delta_ns":opted,"plain_delta_ns":plain}),
+                tainted: false,
+            }
+        }
         "canary_deadlock" => {
             // two simulated threads take two hooked locks in opposite order
             crate::baton::install_hooks();
